@@ -27,6 +27,8 @@ def label_of_case(fn, case_nid):
         name = ln["n"]
     elif ln["k"] == "DependentScopeDeclRefExpr":
         name = ln["text"]
+    elif ln["k"] == "CXXDependentScopeMemberExpr" and ln.get("qual"):
+        name = ln["qual"] + ln["n"]
     elif ln["k"] == "MemberExpr":
         name = ln["n"]
     val = ln.get("cv")
